@@ -38,7 +38,8 @@ def _worker(args):
         cfg.update(getattr(mod, "BUDGET", {}).get(tier, {}))
         h = mod.harness_for(item)
         res = H.run_item(h, item, tier=tier, seed=seed, twin=opts.get("twin", False),
-                         validate=opts.get("validate", 0), profile=opts.get("profile", False), **cfg)
+                         validate=opts.get("validate", 0), profile=opts.get("profile", False),
+                         boundary=(mod.boundary(item) if hasattr(mod, "boundary") else None), **cfg)
         return res
     except BaseException as e:  # noqa: BLE001 - a worker must always report
         from pyhf_smt.harness import Result
